@@ -27,11 +27,53 @@ def parse_dec(v):
     return int(toks[1]), toks[2] == "u", tree
 
 
+TRUNCATED = []   # B cases on which object_write_to_buffer silently truncated (observation, see below)
+
+
+def oracle_b(case, line):
+    """Buffered writer cases 'B <K|B> <cap> <tree>': the byte stream must be the canonical encoding whatever the
+    buffer capacity (theorems write_chunking_preserves_stream / write_to_buffer_fits)."""
+    toks = case.split()
+    kind, cap = toks[1], int(toks[2])
+    tree, _ = G.parse_result_tree(toks, 3)
+    enc = G.ref_encode(G.normalize(tree))
+    if kind == "K":
+        if not line.startswith("wb:OK "):
+            return [("write-chunking", "buffered writer with a buffer-keeping callback failed: " + line[:100])]
+        f = line.split()
+        chunks = [] if f[3] == "none" else [bytes.fromhex(c) if c != "-" else b"" for c in f[3].split(",")]
+        bad = []
+        if f[1] != "s=1":
+            bad.append(("write-chunking", "object_write_to_stream output differs from the chunks a recording callback saw"))
+        if cap > 0:
+            if b"".join(chunks) != enc:
+                bad.append(("write-chunking", "flush-chunking changed the byte stream (capacity %d)" % cap))
+            if any(len(c) != cap for c in chunks[:-1]) or (chunks and not 0 < len(chunks[-1]) <= cap):
+                bad.append(("write-chunking", "a flushed chunk is not full / the final chunk is empty or too long"))
+        return bad
+    if len(enc) <= cap:
+        if line != "wb:OK " + enc.hex():
+            return [("write-buffer", "object_write_bencode(first, last) does not return the encoding although it fits")]
+        return []
+    if line.startswith("wb:OK"):
+        # outside the property text (bounded destination buffers are not part of C07): recorded, not a violation.
+        # The faithful model reproduces it (theorem write_to_buffer_overflow_detected_refuted).
+        TRUNCATED.append(case)
+        got = bytes.fromhex(line.split()[1]) if line.split()[1] != "-" else b""
+        if got != enc[:cap]:
+            return [("write-buffer", "object_write_bencode(first, last) returned bytes that are not a prefix of the encoding")]
+    return []
+
+
 def oracle(case, line):
     """Property C07 evaluated on ONE implementation output line. Returns list of (klass, text)."""
     bad = []
     if line.startswith("CRASH") or line.startswith("ERR:"):
         return [("crash", "decoder/encoder crashed or raised a non-input error: " + line[:200])]
+    if case.startswith("B "):
+        if line.startswith("wb:ERR:other") or line.startswith("wb:OUTOFFUEL") or line == "BADCASE":
+            return [("crash", "buffered writer raised an unexpected error: " + line[:200])]
+        return oracle_b(case, line)
     f = parse_fields(line)
     kind, _, body = case.partition(" ")
     if f.get("c", "").startswith("DEST-DEPENDENT"):
@@ -117,6 +159,7 @@ def run(rep, tier, seed, replay):
                    theorems=coq["theorems"], axioms_per_theorem=coq["axioms"],
                    trusted_base=ltv.std_trusted_base(coq, [
                        "modelled not verified: libstdc++ operator>>(long/unsigned) as stream_int64/stream_uint32; std::map as sorted association list",
+                       "buffered writer model coq/C07/WriteBuf.v: flush callbacks modelled as two kinds (buffer handed back unchanged / object_write_to_buffer); a failing ostream (bad()) and skip_mask != 0 are not modelled",
                        "python reference oracle gen/c07.py (ref_encode/ref_decode) for the 'denotes' relation on implementation outputs"]))
     model = ltv.build_model("C07")
     impl = ltv.build_harness("c07", ["c07.cc"])
@@ -160,10 +203,13 @@ def run(rep, tier, seed, replay):
             coq["discharged"], coq["obligations"], "; ".join(coq["lint"] + coq["bad_axioms"]), coq["log"][-1500:]),
             theorem="coq/C07/Properties.v", found_input=False)
     rep.cov.update(evaluations=len(cases), distinct_nontrivial=len(nontrivial),
-                   rule="cases = corpus + hand list + random trees (E) + every prefix + mutations + random/exhaustive small strings (D); "
+                   rule="cases = corpus + hand list + random trees (E) + every prefix + mutations + random/exhaustive small strings (D) + buffered-writer cases (B: small trees x every capacity, random trees x boundary capacities); "
                         "non-trivial = distinct case on which at least one reader of the implementation accepts",
                    samples=samples, input_distribution=stats, mismatches=mism,
-                   exhaustive=False)
+                   exhaustive=False,
+                   write_buffer_silent_truncations=dict(count=len(TRUNCATED), first=TRUNCATED[:3],
+                       note="object_write_bencode(first,last) returned normally with a truncated encoding (model agrees: "
+                            "write_to_buffer_overflow_detected_refuted); outside the property text, not a violation"))
     # static-map / raw readers (coq/C07/StaticMap.v, PropertiesSM.v, harness/c07sm*.cc)
     if not replay or sm_replay is not None:
         part = SM.run_part(rep, tier, seed, sm_replay)
